@@ -49,3 +49,18 @@ Definition parse_ip (s : bytes) : option bytes :=
            (if has 46 s then Some (repeat 0 10 ++ [255; 255] ++ parse_ip4 (skipn 7 s)) else Some (parse_ip6 s))
          else Some (parse_ip4 s)
   end.
+
+(* lower-case hex text of a byte string (NilRenderer on byte fields): two digits per byte *)
+Fixpoint parse_hex (s : bytes) : option bytes :=
+  match s with
+  | [] => Some []
+  | a :: b :: r => match parse_hex r with Some l => Some (hex_val [a; b] :: l) | None => None end
+  | _ => None
+  end.
+
+(* "address/length" *)
+Definition parse_prefix (s : bytes) : option (bytes * N) :=
+  match split_on 47 s with
+  | [a; b] => match parse_ip a with Some ip => Some (ip, dec_val b) | None => None end
+  | _ => None
+  end.
